@@ -129,7 +129,9 @@ def to_plain(x):
     """
     SC = _sc_class()
     if isinstance(x, SC):
-        x = x._data
+        d = getattr(x, "_data", None)
+        # _to_base() is documented not to load; only a fallback should _data be renamed
+        x = d if d is not None else x._to_base()
     if isinstance(x, dict):
         return {k: to_plain(v) for k, v in x.items()}
     if isinstance(x, list):
